@@ -22,11 +22,7 @@ fn compress512_stub(state: &mut [u64; 8], blocks: &[[u8; 128]]) {
         unsafe {
             let i = CB_N;
             assert!(i < MAXC, "more SHA-512 blocks than the specification hashes");
-            let mut k = 0;
-            while k < 128 {
-                CB_BLOCK[i][k] = blocks[b][k];
-                k += 1;
-            }
+            CB_BLOCK[i] = blocks[b];
             let out: [u64; 8] = kani::any();
             CB_OUT[i] = out;
             *state = out;
@@ -42,11 +38,7 @@ fn mul_stub(_x: &k256::ProjectivePoint, k: &k256::Scalar) -> k256::ProjectivePoi
     unsafe {
         MUL_CALLS += 1;
         let b = k.to_bytes();
-        let mut i = 0;
-        while i < 32 {
-            MUL_SCALAR[i] = b[i];
-            i += 1;
-        }
+        MUL_SCALAR.copy_from_slice(&b[..]);
     }
     k256::ProjectivePoint::GENERATOR
 }
@@ -54,10 +46,6 @@ fn to_affine_stub(_p: &k256::ProjectivePoint) -> k256::AffinePoint {
     k256::AffinePoint::GENERATOR
 }
 
-const ORDER: [u8; 32] = [
-    0xff, 0xff, 0xff, 0xff, 0xff, 0xff, 0xff, 0xff, 0xff, 0xff, 0xff, 0xff, 0xff, 0xff, 0xff, 0xfe,
-    0xba, 0xae, 0xdc, 0xe6, 0xaf, 0x48, 0xa0, 0x3b, 0xbf, 0xd2, 0x5e, 0x8c, 0xd0, 0x36, 0x41, 0x41,
-];
 /// compressed SEC1 encoding of the generator (what the point-multiplication stub yields)
 const G_COMPRESSED: [u8; 33] = [
     0x02, 0x79, 0xbe, 0x66, 0x7e, 0xf9, 0xdc, 0xbb, 0xac, 0x55, 0xa0, 0x62, 0x95, 0xce, 0x87, 0x0b, 0x07,
@@ -65,57 +53,38 @@ const G_COMPRESSED: [u8; 33] = [
 ];
 
 fn is_zero(x: &[u8; 32]) -> bool {
-    let mut z = true;
-    let mut i = 0;
-    while i < 32 {
-        if x[i] != 0 {
-            z = false;
-        }
-        i += 1;
-    }
-    z
+    is_zero32(x)
 }
 fn below_order(x: &[u8; 32]) -> bool {
-    let mut i = 0;
-    while i < 32 {
-        if x[i] < ORDER[i] {
-            return true;
-        }
-        if x[i] > ORDER[i] {
-            return false;
-        }
-        i += 1;
-    }
-    false
+    lt32(x, &SECP256K1_ORDER)
 }
-/// (a + b) mod n for a, b < n, on big-endian bytes
+fn halves(v: &[u8; 32]) -> (u128, u128) {
+    (
+        u128::from_be_bytes([v[0], v[1], v[2], v[3], v[4], v[5], v[6], v[7], v[8], v[9], v[10], v[11], v[12], v[13], v[14], v[15]]),
+        u128::from_be_bytes([v[16], v[17], v[18], v[19], v[20], v[21], v[22], v[23], v[24], v[25], v[26], v[27], v[28], v[29], v[30], v[31]]),
+    )
+}
+/// (a + b) mod n for a, b < n, on 128-bit halves (no loop)
 fn add_mod_n(a: &[u8; 32], b: &[u8; 32]) -> [u8; 32] {
-    let mut sum = [0u8; 32];
-    let mut carry = 0u16;
-    let mut i = 32;
-    while i > 0 {
-        i -= 1;
-        let t = a[i] as u16 + b[i] as u16 + carry;
-        sum[i] = t as u8;
-        carry = t >> 8;
-    }
-    if carry != 0 || !below_order(&sum) {
-        // subtract n (the true sum is < 2n, so one subtraction suffices; wrap-around of the 257th bit is intended)
-        let mut borrow = 0i16;
-        let mut i = 32;
-        while i > 0 {
-            i -= 1;
-            let t = sum[i] as i16 - ORDER[i] as i16 - borrow;
-            if t < 0 {
-                sum[i] = (t + 256) as u8;
-                borrow = 1;
-            } else {
-                sum[i] = t as u8;
-                borrow = 0;
-            }
-        }
-    }
-    sum
+    let (ah, al) = halves(a);
+    let (bh, bl) = halves(b);
+    let (nh, nl) = halves(&SECP256K1_ORDER);
+    let (sl, c1) = al.overflowing_add(bl);
+    let (sh0, c2) = ah.overflowing_add(bh);
+    let (sh, c3) = sh0.overflowing_add(c1 as u128);
+    let carry = c2 || c3;
+    let ge_n = sh > nh || (sh == nh && sl >= nl);
+    let (rh, rl) = if carry || ge_n {
+        // the true sum is < 2n: one subtraction suffices (wrap-around of the 257th bit intended)
+        let (dl, b1) = sl.overflowing_sub(nl);
+        (sh.wrapping_sub(nh).wrapping_sub(b1 as u128), dl)
+    } else {
+        (sh, sl)
+    };
+    let mut out = [0u8; 32];
+    out[..16].copy_from_slice(&rh.to_be_bytes());
+    out[16..].copy_from_slice(&rl.to_be_bytes());
+    out
 }
 
 /// Checks that compression calls `first..first+4` are an HMAC-SHA512 keyed with `key` (<= 128 bytes)
@@ -123,39 +92,30 @@ fn add_mod_n(a: &[u8; 32], b: &[u8; 32]) -> [u8; 32] {
 fn expect_hmac(first: usize, key: &[u8], msg: &[u8]) -> [u8; 64] {
     unsafe {
         assert!(CB_N >= first + 4, "an HMAC the specification performs is missing");
+        // first block: key padded with zeros, xor 0x36
+        let mut kb = [0x36u8; 128];
         let mut k = 0;
-        while k < 128 {
-            let kb = if k < key.len() { key[k] } else { 0 };
-            assert!(CB_BLOCK[first][k] == kb ^ 0x36, "HMAC key differs");
+        while k < key.len() {
+            kb[k] = key[k] ^ 0x36;
             k += 1;
         }
+        assert!(bytes_eq(&CB_BLOCK[first], &kb), "HMAC key differs");
         // third block: message || 0x80 || zeros || 128-bit big-endian bit length of (128 + |msg|) bytes
         let bits = (128 + msg.len()) * 8;
+        let mut mb = [0u8; 128];
         let mut k = 0;
-        while k < 128 {
-            let e = if k < msg.len() {
-                msg[k]
-            } else if k == msg.len() {
-                0x80
-            } else if k == 126 {
-                (bits >> 8) as u8
-            } else if k == 127 {
-                bits as u8
-            } else {
-                0
-            };
-            assert!(CB_BLOCK[first + 2][k] == e, "HMAC message differs");
+        while k < msg.len() {
+            mb[k] = msg[k];
             k += 1;
         }
+        mb[msg.len()] = 0x80;
+        mb[126] = (bits >> 8) as u8;
+        mb[127] = bits as u8;
+        assert!(bytes_eq(&CB_BLOCK[first + 2], &mb), "HMAC message differs");
         let mut out = [0u8; 64];
         let mut w = 0;
         while w < 8 {
-            let b = CB_OUT[first + 3][w].to_be_bytes();
-            let mut j = 0;
-            while j < 8 {
-                out[8 * w + j] = b[j];
-                j += 1;
-            }
+            out[8 * w..8 * w + 8].copy_from_slice(&CB_OUT[first + 3][w].to_be_bytes());
             w += 1;
         }
         out
@@ -252,12 +212,8 @@ fn check_derive<const L: usize, const D: usize>(force_kind: Option<bool>) {
     let i0 = expect_hmac(0, b"Bitcoin seed", &seed);
     let mut key = [0u8; 32];
     let mut chain = [0u8; 32];
-    let mut j = 0;
-    while j < 32 {
-        key[j] = i0[j];
-        chain[j] = i0[32 + j];
-        j += 1;
-    }
+    key.copy_from_slice(&i0[..32]);
+    chain.copy_from_slice(&i0[32..]);
     let mut valid = true;
     let mut dont_care = false;
     let mut muls = 0;
@@ -270,11 +226,7 @@ fn check_derive<const L: usize, const D: usize>(force_kind: Option<bool>) {
         let (hardened, index) = comps[d];
         let mut data = [0u8; 37];
         if hardened {
-            let mut j = 0;
-            while j < 32 {
-                data[1 + j] = key[j];
-                j += 1;
-            }
+            data[1..33].copy_from_slice(&key);
             let ib = (index + 0x8000_0000).to_be_bytes();
             data[33] = ib[0];
             data[34] = ib[1];
@@ -283,18 +235,10 @@ fn check_derive<const L: usize, const D: usize>(force_kind: Option<bool>) {
         } else {
             // serP(point(k_par)): the multiplication stub recorded the scalar and yielded G
             unsafe {
-                let mut j = 0;
-                while j < 32 {
-                    assert!(MUL_SCALAR[j] == key[j] || D > 1, "public key of the wrong scalar");
-                    j += 1;
-                }
+                assert!(D > 1 || eq32(&MUL_SCALAR, &key), "public key of the wrong scalar");
             }
             muls += 1;
-            let mut j = 0;
-            while j < 33 {
-                data[j] = G_COMPRESSED[j];
-                j += 1;
-            }
+            data[..33].copy_from_slice(&G_COMPRESSED);
             let ib = index.to_be_bytes();
             data[33] = ib[0];
             data[34] = ib[1];
@@ -303,12 +247,8 @@ fn check_derive<const L: usize, const D: usize>(force_kind: Option<bool>) {
         }
         let i = expect_hmac(4 * (d + 1), &chain, &data);
         let mut il = [0u8; 32];
-        let mut j = 0;
-        while j < 32 {
-            il[j] = i[j];
-            chain[j] = i[32 + j];
-            j += 1;
-        }
+        il.copy_from_slice(&i[..32]);
+        chain.copy_from_slice(&i[32..]);
         if is_zero(&il) {
             // BIP-32 does not declare IL = 0 invalid; the implementation refuses it (2^-256): don't care
             dont_care = true;
@@ -331,11 +271,7 @@ fn check_derive<const L: usize, const D: usize>(force_kind: Option<bool>) {
             Ok(k) => {
                 assert!(valid, "derivation yielded a key where BIP-32 declares the result invalid");
                 let s = k.secret();
-                let mut j = 0;
-                while j < 32 {
-                    assert!(s[j] == key[j], "derived key differs from BIP-32 CKDpriv");
-                    j += 1;
-                }
+                assert!(eq32(&s, &key), "derived key differs from BIP-32 CKDpriv");
                 unsafe {
                     assert!(CB_N == 4 * (D + 1), "number of HMAC invocations");
                     assert!(MUL_CALLS == muls, "number of public key computations");
